@@ -721,3 +721,51 @@ def cut_result(g: CFG, site: ResultSite, justified: EdgePred, start: Optional[in
     if site.ret.id not in second:
         return None
     return (g.path_to(first, site.node.id) or []) + (g.path_to(second, site.ret.id) or [])[1:]
+
+
+def reach_const_flags(g: CFG, starts: Iterable[int], skip_node: Optional[NodePred] = None, ignore_exc: bool = False) -> Set[int]:
+    """Forward reachability that remembers plain locals assigned a constant on the way (`ok = False`) and, at a test on
+    such a local (`if ok:` / `if not ok:`), follows the feasible edge only.  Everything else is followed as usual."""
+    seen: Set[Tuple[int, Tuple[Tuple[str, bool], ...]]] = set()
+    out: Set[int] = set()
+    todo: List[Tuple[int, Tuple[Tuple[str, bool], ...]]] = [(s_, ()) for s_ in starts]
+    while todo:
+        nid, env_t = todo.pop()
+        if (nid, env_t) in seen:
+            continue
+        seen.add((nid, env_t))
+        out.add(nid)
+        n = g.nodes[nid]
+        if skip_node is not None and skip_node(n):
+            continue
+        env = dict(env_t)
+        a = n.ast
+        if n.kind == "stmt" and isinstance(a, (ast.Assign, ast.AnnAssign, ast.AugAssign)):
+            tgts = a.targets if isinstance(a, ast.Assign) else [a.target]
+            for t in tgts:
+                for x in ast.walk(t):
+                    if isinstance(x, ast.Name):
+                        env.pop(x.id, None)
+            if isinstance(a, ast.Assign) and len(tgts) == 1 and isinstance(tgts[0], ast.Name):
+                tr = _def_truth(n)
+                if tr is not None:
+                    env[tgts[0].id] = tr
+        elif n.kind in ("for", "with", "handler") or (n.kind == "stmt" and isinstance(a, (ast.FunctionDef, ast.ClassDef, ast.Import, ast.ImportFrom))):
+            for x in ast.walk(a) if a is not None and n.kind != "handler" else []:
+                if isinstance(x, ast.Name) and not isinstance(x.ctx, ast.Load):
+                    env.pop(x.id, None)
+        want = None
+        if n.kind == "test":
+            e, neg = a, False
+            while isinstance(e, ast.UnaryOp) and isinstance(e.op, ast.Not):
+                e, neg = e.operand, not neg
+            if isinstance(e, ast.Name) and e.id in env:
+                want = "T" if env[e.id] != neg else "F"
+        env_n = tuple(sorted(env.items()))
+        for lab, d in n.succ:
+            if ignore_exc and lab == "exc":
+                continue
+            if want is not None and lab in ("T", "F") and lab != want:
+                continue
+            todo.append((d, env_n))
+    return out
